@@ -20,12 +20,18 @@ type FaultScanner struct {
 	Gate    func(name string, failing bool)
 	mu      sync.Mutex
 	Seen    map[string]int
+	// InFlight counts the invocations that have been entered and have not returned yet.
+	InFlight atomic.Int32
+	// Touch makes every non-failing invocation read its definition like the built-in tag scanners do.
+	Touch bool
 }
 
 func (s *FaultScanner) Naming() string { return s.Nm }
 func (s *FaultScanner) LazyInit()      {}
 
 func (s *FaultScanner) PostProcessDefinitionRegistry(reg container.DefinitionRegistry, component any, name string) error {
+	s.InFlight.Add(1)
+	defer s.InFlight.Add(-1)
 	s.mu.Lock()
 	if s.Seen == nil {
 		s.Seen = map[string]int{}
@@ -35,6 +41,9 @@ func (s *FaultScanner) PostProcessDefinitionRegistry(reg container.DefinitionReg
 	failing := s.FailFor[name] || s.FailFor["*"]
 	if s.Gate != nil {
 		s.Gate(name, failing)
+	}
+	if s.Touch && !failing {
+		reg.GetMetaOrRegister(name, component)
 	}
 	if failing {
 		return errors.New("injected fault: scanner " + s.Nm + " for " + name)
